@@ -33,6 +33,20 @@ def startedSetLast : Bool :=
   !maySet "started" "True" (dropLast Extracted.Guards.deepStart)
 def shutdownClearsStarted : Bool := lastOf Extracted.Guards.deepShutdown == .assign "started" "False"
 
+/-- the statements of a function body, in order -/
+def flat : Stmt → List Stmt
+  | .seq a b => a :: flat b
+  | s => [s]
+
+def isGuard (cond : String) : Stmt → Bool
+  | .branch c (.ret _) .pure => c == cond
+  | _ => false
+
+/-- `Deep.start` refuses to start an instance that was shut down: its second statement is `if self._shutdown: return` -/
+def restartRefused : Bool := ((flat Extracted.Guards.deepStart)[1]?.map (isGuard "self._shutdown")).getD false
+/-- … and `Deep.shutdown` of a started instance records that, before it runs any step -/
+def shutdownMarksShut : Bool := (flat Extracted.Guards.deepShutdown)[1]? == some (.assign "_shutdown" "True")
+
 /-! ### state -/
 
 structure Deep where
@@ -44,17 +58,22 @@ structure Deep where
   pending : List Nat        -- ids of submitted sends that flush has not waited for yet
   plugins : List Nat        -- loaded plugins, in load order
   shutCalls : List Nat      -- plugin.shutdown() calls made so far, oldest first
+  everShut : Bool           -- Deep._shutdown: this instance was shut down once (its handlers are closed for good)
 deriving DecidableEq, Repr
 
 def init (sys thr : Hook) (noTrace : Bool) (plugins : List Nat) (pending : List Nat) : Deep :=
   { w := thInit sys thr, noTrace := noTrace, started := false, pollAlive := false, tasksOpen := true,
-    pending := pending, plugins := plugins, shutCalls := [] }
+    pending := pending, plugins := plugins, shutCalls := [], everShut := false }
 
 def Deep.hooks (d : Deep) : Hook × Hook := (d.w.sysHook, d.w.thrHook)
 
-/-- `Deep.start` (no step of it fails: the property's quantifier has no failing start steps). -/
+/-- `Deep.start`.  An instance that was shut down is not started again (its task handler and trigger handler are
+    closed for good: the first poll of a restart would hand an update to the closed task handler, which raises a
+    `BaseException` out of `start` before `started` is set — the reason the guard exists).  Otherwise no step of it
+    fails: the property's quantifier has no failing start steps. -/
 def start (d : Deep) : Deep :=
   if startGuarded && d.started then d else
+  if restartRefused && d.everShut then d else
   { d with w := thStart d.noTrace d.w, pollAlive := true, started := true }
 
 /-- which things fail during a shutdown -/
@@ -96,6 +115,7 @@ def steps (d : Deep) : List Step := [.thShutdown, .flush, .pollShutdown] ++ d.pl
 /-- `Deep.shutdown`: new state, and whether it raises into the caller -/
 def shutdown (f : Faults) (d : Deep) : Deep × Bool :=
   if shutdownGuarded && !d.started then (d, false) else
+  let d := { d with everShut := d.everShut || shutdownMarksShut }
   let (d', raised) := runSteps stepsIsolated f (steps d) d
   if raised then (d', true)
   else ({ d' with started := if shutdownClearsStarted then false else d'.started }, false)
@@ -139,6 +159,25 @@ def hostView (d : Deep) (h : Hook × Hook) : Op → Hook × Hook
 def runH : List Op → Deep × (Hook × Hook) → Deep × (Hook × Hook)
   | [], x => x
   | op :: ops, (d, h) => runH ops (step d op, hostView d h op)
+
+/-! ### several threads
+
+  `sys.settrace` acts on the CALLING thread only (`threading.settrace` is the process-wide one, for threads started
+  later).  `World.sysHook` above is therefore the slot of the thread that calls `start` / `shutdown`.  With several
+  threads each has its own slot; an operation called on thread `t` sees and writes thread `t`'s slot. -/
+
+structure MT where
+  d : Deep
+  slots : Nat → Hook        -- sys.gettrace() of each thread
+
+def stepOn (t : Nat) (m : MT) (op : Op) : MT :=
+  let d1 : Deep := { m.d with w := { m.d.w with sysHook := m.slots t } }
+  let d2 := step d1 op
+  { d := d2, slots := fun u => if u = t then d2.w.sysHook else m.slots u }
+
+def runMT : List (Nat × Op) → MT → MT
+  | [], m => m
+  | (t, op) :: rest, m => runMT rest (stepOn t m op)
 
 /-- the triggers a trace event is matched against: an event can only cause actions when this is non-empty
     (`trace_call` returns before matching when `len(self._tp_config) == 0`). -/
